@@ -435,6 +435,9 @@ def observe_direct(data: bytes) -> dict:
     obs['leaves'] = [(path, size, bytes(lm.get_body(path)),
                       bytes(lm.get_headers(path)))
                      for path, size in leaves]
+    # the encapsulated message of every message/rfc822 part P: BODY[P], BODY[P.HEADER], BODY[P.TEXT]
+    obs['msgs'] = [(path, bytes(lm.get_body(path)), bytes(lm.get_message_headers(path)),
+                    bytes(lm.get_message_text(path))) for path in sorted(msgparts) if path]
     return obs
 
 
@@ -607,6 +610,14 @@ def judge(data: bytes, obs: dict, pred: Pred | None, backend: str, place: str):
                     'numbering': 'RFC 3501 6.4.5: BODY[P] of a message/rfc822 part is its '
                     'body, the embedded message in full (header and body)'})
             fails.append((clause, sig, detail))
+    # the law of the whole message, one level down: for a message/rfc822 part P the header and
+    # the text of the message it encapsulates, put together, are that message
+    for path, body, hdr, txt in obs.get('msgs') or ():
+        if hdr + txt != body:
+            fails.append(('header+text of the encapsulated message', None,
+                          {'part': path, 'len_body': len(body), 'len_hdr': len(hdr),
+                           'len_txt': len(txt), 'hdr': hdr[:60], 'txt': txt[:60]}))
+            break
     # drift: the as-is model's prediction against the real result
     if p is not None:
         want = {'raw': base[p.raw[0]:p.raw[1]], 'hdr': base[p.hdr[0]:p.hdr[1]],
@@ -705,6 +716,21 @@ def _fetch_basic(w: World, seq: int, stats: dict, with_rfc822: bool) -> dict:
             body = wc.payload(d2.get(b'BODY[%s]' % ps))
             mime = wc.payload(d2.get(b'BODY[%s.MIME]' % ps))
             obs['leaves'].append((path, size, body, mime))
+    obs['msgs'] = []
+    mp = sorted(p for p in (obs.get('msgparts') or ()) if p)
+    if mp:
+        want = []
+        for path in mp:
+            ps = b'.'.join(b'%d' % x for x in path)
+            want.append(b'BODY.PEEK[%s] BODY.PEEK[%s.HEADER] BODY.PEEK[%s.TEXT]' % (ps, ps, ps))
+        items, rest, raw = _cmd(w, b'FETCH %d (%s)' % (seq, b' '.join(want)), stats)
+        if wc.tagged(rest) == b'OK':
+            d3 = dict(items.get(seq, ()))
+            for path in mp:
+                ps = b'.'.join(b'%d' % x for x in path)
+                vals = [wc.payload(d3.get(b'BODY[%s%s]' % (ps, sfx))) for sfx in (b'', b'.HEADER', b'.TEXT')]
+                if None not in vals:
+                    obs['msgs'].append((path, *vals))
     return obs
 
 
